@@ -487,3 +487,33 @@ def frame_ring(rng):
         return None
     hdr = b"\x28\xb5\x2f\xfd" + bytes([0]) + bytes([((wlog - 10) << 3) | mant])
     return hdr + b"".join(blocks), bytes(h.out)
+
+
+def legacy_frame(rng, version=None):
+    """valid frame of a legacy format (v0.5 / v0.6 / v0.7) made of raw and RLE blocks only (no legacy compressor exists in the tree):
+    small windows, several blocks, end-of-frame block - seed material for the mutation monitors of the legacy decoders"""
+    v = version or rng.choice([5, 6, 7, 7])
+    out, content = bytearray(), bytearray()
+    if v == 7:
+        wl = rng.choice([0, 0, 1, 3, 7, 8]); mant = rng.randrange(8) if rng.random() < 0.3 else 0
+        out += b"\x27\xb5\x2f\xfd" + bytes([0x00, (wl << 3) | mant])
+        window = (1 << (wl + 10)); window += (window >> 3) * mant
+        blockmax = min(window, 131072)
+    elif v == 6:
+        wl = rng.choice([0, 0, 1, 5])
+        out += b"\x26\xb5\x2f\xfd" + bytes([wl])
+        blockmax = min(1 << (wl + 12), 131072)
+    else:
+        wl = rng.choice([0, 0, 1, 6])
+        out += b"\x25\xb5\x2f\xfd" + bytes([wl])
+        blockmax = 131072 if wl + 11 >= 17 else (1 << (wl + 11))
+    for _ in range(rng.randint(1, 6)):
+        n = rng.choice([1, 2, 100, blockmax // 2, blockmax]) if rng.random() < 0.8 else rng.randint(1, blockmax)
+        if rng.random() < 0.93:     # (the legacy decoders refuse RLE blocks in several entry points: "not yet handled")
+            data = bytes(rng.getrandbits(8) for _ in range(n))
+            out += bytes([0x40 | (n >> 16), (n >> 8) & 0xFF, n & 0xFF]) + data; content += data
+        else:
+            b = rng.getrandbits(8)
+            out += bytes([0x80 | (n >> 16), (n >> 8) & 0xFF, n & 0xFF, b]); content += bytes([b]) * n
+    out += bytes([0xC0, 0, 0])
+    return bytes(out), bytes(content)
